@@ -63,6 +63,10 @@ class MethodMixin:
         import time as _time
         reg(_time.time, lambda a, k, n, f: (self.path.trace.append(('time.time',)), self.path.fresh(INT, 'now'))[1])
         reg(super, self.b_super)
+        import os as _os
+        reg(open, self.b_open)
+        reg(_os.replace, lambda a, k, n, f: self.path.trace.append(('os.replace', a[0], a[1])))
+        reg(_os.unlink, lambda a, k, n, f: self.path.trace.append(('os.unlink', a[0])))
         import sys as _sys
         def _exit(a, k, n, f):
             raise PyRaise(SystemExit, tuple(a), n)
@@ -273,6 +277,28 @@ class MethodMixin:
 
     def b_sorted(self, a, k, n, f):
         v = a[0]
+        if isinstance(v, VBox) and v.kind == 'set' and v.term is not None:
+            esort = v.term.sort().domain()
+            nm = 'py_sorted_set_' + ''.join(c for c in str(esort) if c.isalnum())
+            if k.get('key') is None and not k.get('reverse'):
+                # sorted(set) without a key: a function of the SET (total order on the elements)
+                return VBox('list', self.ufun(nm, v.term.sort(), z3.SeqSort(esort))(v.term), v.esort)
+            # with a key (ties keep iteration order) the result also depends on the iteration order
+            sv = self.symbolic_iter(v)
+            return VBox('list', self.ufun(nm + '_key', sv.seqs[0].sort(), z3.SeqSort(esort))(sv.seqs[0]), v.esort)
+        if isinstance(v, VBox) and v.kind in ('list', 'deque') and z3.is_expr(v.term):
+            info = self.comp_info.get(v.term.get_id())
+            if info and info[0] and k.get('key') is None and not k.get('reverse'):
+                src = info[1]
+                st = self.iter_info.get(src.get_id())
+                if st is not None:
+                    # sorted([str(x) for x in S]) for a set S of strings == sorted(S): independent of the iteration order
+                    esort = st.sort().domain()
+                    nm = 'py_sorted_set_' + ''.join(c for c in str(esort) if c.isalnum())
+                    return VBox('list', self.ufun(nm, st.sort(), z3.SeqSort(esort))(st), v.esort)
+            lsort = v.term.sort()
+            nm = 'py_sorted_list_' + ''.join(c for c in str(lsort) if c.isalnum()) + ('_key' if k.get('key') is not None else '')
+            return VBox('list', self.ufun(nm, lsort, lsort)(v.term), v.esort)
         if isinstance(v, PyList):
             v = v.items
         if not is_sym(v) and not contains_sym(v) and 'key' not in k:
@@ -384,6 +410,20 @@ class MethodMixin:
                 return bool
         raise Unsupported('type() of symbolic value')
 
+    def b_open(self, a, k, n, f):
+        """open(path, mode): the file system is abstract — existence and content are functions of the path (at the time
+        of the call; the functions under contract read before they write)"""
+        path = self.zs.lift(a[0], STR)
+        mode = a[1] if len(a) > 1 else k.get('mode', 'r')
+        if is_sym(mode):
+            raise Unsupported('open with a symbolic mode')
+        if 'r' in mode:
+            ex = self.ufun('fs_exists', STR, z3.BoolSort())(path)
+            if not self.path.branch(ex):
+                raise PyRaise(FileNotFoundError, (), n)
+        self.path.trace.append(('open', path, mode))
+        return VFile(path, mode)
+
     def b_super(self, a, k, n, f):
         """zero-argument super(): the next class after the defining class in the MRO of self"""
         fr = f
@@ -437,6 +477,13 @@ class MethodMixin:
             if isinstance(ret, api.List):
                 return VBox(ret.kind, r, ret.elem)
             return self.wrap_sort(r, ret)
+        if isinstance(recv, VFile):
+            if name == 'read':
+                return self.ufun('fs_content', STR, STR)(recv.path)
+            if name in ('write', 'writelines'):
+                self.path.trace.append(('file.' + name, recv.path, args[0] if args else None))
+                return None
+            raise Unsupported(f'file.{name}')
         if isinstance(recv, _re.Pattern):
             return self.m_pattern(recv, name, args, node)
         if isinstance(recv, VMatch):
@@ -780,6 +827,12 @@ class MethodMixin:
 
 class PySet(set):
     pass
+
+
+class VFile:
+    """abstract open file"""
+    def __init__(self, path, mode):
+        self.path, self.mode = path, mode
 
 
 class SuperProxy:
